@@ -168,6 +168,7 @@ inductive Label where
   | cbRet                                   -- environment callback on R returns
   | startR                                  -- connect(): the reader thread starts
   | publish                                 -- connect(): `_protocol` becomes visible to callers
+  | connectFailed                           -- connect(): the connection was lost before it was set up; the port is closed, an error raised
 deriving Repr, DecidableEq
 
 def lookup (cs : List (Tid × UPc)) (t : Tid) : UPc := ((cs.find? (·.1 == t)).map (·.2)).getD .idle
@@ -306,7 +307,7 @@ def step (P : Params) (s : St) : Label → Option (St × Option Obs)
   | .callClose t =>
     if mayCall s t then
       if s.published then some (setUpc s t (.closing .c0), none)
-      else some (s, some (.callRet t))                       -- never connected: nothing to do
+      else some (setUpc s t .returning, none)                -- never connected: nothing to do, returns at once
     else none
   | .reg _ cb => some ({ s with msgCbs := if s.msgCbs.contains cb then s.msgCbs else s.msgCbs ++ [cb] }, none)
   | .unreg _ cb => some ({ s with msgCbs := s.msgCbs.filter (· != cb) }, none)
@@ -341,6 +342,10 @@ def step (P : Params) (s : St) : Label → Option (St × Option Obs)
     | _ => none
   | .startR => if s.rpc = .notStarted then some ({ s with rpc := .made 0 }, none) else none
   | .publish => if s.connMade ∧ ¬ s.published then some ({ s with published := true }, none) else none
+  | .connectFailed =>
+    if s.alive = false ∧ s.published = false ∧ s.rpc ≠ .notStarted then
+      some ({ s with portOpen := false }, if s.portOpen then some .portClose else none)
+    else none
 
 /-- executions: label sequences from a state -/
 def run (P : Params) : St → List Label → Option St
